@@ -408,6 +408,7 @@ impl TCheck for C13 {
                 *slot.lock().unwrap() = rep;
             }),
             record_events: true,
+            hard_fault: false,
         }
     }
     fn history_oracle(&self, events: &[crate::exec::Event], _report: &BodyReport) -> Vec<String> {
